@@ -10,7 +10,9 @@ CLASSES = """
     change 1 - an INTERACTION: it needs two or more public calls or objects to manifest (state carried from one call to a later one, objects that share or alias mutable state or arrays, results that change when something else is done in between, order of operations);
     change 2 - a REGIME: it needs an unusual-but-valid size, magnitude, dtype, unit, sign, orientation or parameter combination (large counts, tiny or huge values, non-default numeric types, quantities with units, negative or zero where allowed, non-contiguous arrays, ...), while the common regime stays correct;
     change 3 - an EDGE or ERROR path: boundary equality, empty or degenerate input, the last element / last block / last file, an exception raised part-way and what state is left behind, rejected input that must leave no trace.
-""" if flavour == "classes" else ""
+""" if flavour == "classes" else ("""
+  Both changes must be COMPOSITIONS: each needs TWO independent conditions to hold at the same time before anything goes wrong (for example: a particular option AND a particular geometry; a second call on the same object AND an unusual argument type; an error raised part-way AND a later unrelated call; a size above some threshold AND a non-default flag). With only one of the two conditions the behaviour must stay exactly right. Say in meta.json which two conditions are needed. Avoid the most obvious mechanisms (caching a derived array on the object, np.isclose instead of ==, reusing an output buffer): pick something a reviewer would find harder to spot.
+""" if flavour == "compose" else "")
 for l in open('/verif/properties.jsonl'):
     p = json.loads(l)
     if p['id'] == pid:
